@@ -76,6 +76,8 @@ reg("C07",
     "N<=4 all shapes x PRIO*; N=5 shapes with 4..6 edges x 6 vectors; 4 hash seeds",
     "N<=4 as quick; N=5 all 1024 shapes x 13 vectors; 4 hash seeds")
 INFO["C07"]["hash_seeds"] = 4
+for _c in ("C04", "C05", "C08"):
+    INFO[_c]["cfg_variants"] = True
 
 reg("C12",
     "all labelled shapes x program variants {plain, a node whose only input is a constant, setup nodes fresh / pre-computed} x alias forms {id, node reference, unique tag, tag shared by two nodes, "
